@@ -134,7 +134,12 @@ void s_error() {
 }
 
 void s_hashes() {
+  // objects that exist before the failing calls: their later answers must be those of the fault-free computation
+  PCryptoHash *pre[3]; static const PCryptoHashType pt[3] = {P_CRYPTO_HASH_TYPE_MD5, P_CRYPTO_HASH_TYPE_SHA1, P_CRYPTO_HASH_TYPE_SHA2_256};
+  static const char *want[3] = {"900150983cd24fb0d6963f7d28e17f72", "a9993e364706816aba3e25717850c26c9cd0d89d", "ba7816bf8f01cfea414140de5dae2223b00361a396177a9cb410ff61f20015ad"};
+  for (int i = 0; i < 3; i++) { pre[i] = p_crypto_hash_new(pt[i]); if (pre[i]) p_crypto_hash_update(pre[i], (const puchar *)"abc", 3); }
   arm();
+  for (int i = 0; i < 3; i++) if (pre[i]) { pchar *s = p_crypto_hash_get_string(pre[i]); WRONG(!s || !strcmp(s, want[i]), "digest string is %s", s); p_free(s); }
   for (int ty = P_CRYPTO_HASH_TYPE_MD5; ty <= P_CRYPTO_HASH_TYPE_GOST; ty++) {
     PCryptoHash *h = p_crypto_hash_new((PCryptoHashType)ty);
     if (!h) continue;
@@ -145,6 +150,14 @@ void s_hashes() {
     p_crypto_hash_free(h);
   }
   disarm();
+  for (int i = 0; i < 3; i++) if (pre[i]) {
+    pchar *s = p_crypto_hash_get_string(pre[i]);
+    DAMAGE(s && !strcmp(s, want[i]), "a hash object that existed before a failed p_crypto_hash_get_string now yields %s instead of %s", s ? s : "(null)", want[i]);
+    p_free(s);
+    puchar dg[64]; psize dl = sizeof dg; p_crypto_hash_get_digest(pre[i], dg, &dl);
+    DAMAGE(dl == (psize)p_crypto_hash_get_length(pre[i]), "digest length changed");
+    p_crypto_hash_free(pre[i]);
+  }
 }
 
 void s_ini() {
@@ -222,7 +235,9 @@ void s_dir() {
 }
 
 void s_sockaddr() {
+  PSocketAddress *pre = p_socket_address_new("172.16.254.1", 4242);
   arm();
+  if (pre) { pchar *t = p_socket_address_get_address(pre); WRONG(!t || !strcmp(t, "172.16.254.1"), "address text is %s", t); p_free(t); }
   PSocketAddress *a = p_socket_address_new("192.168.1.7", 8080);
   PSocketAddress *b = p_socket_address_new_any(P_SOCKET_FAMILY_INET6, 1);
   PSocketAddress *c = p_socket_address_new_loopback(P_SOCKET_FAMILY_INET, 2);
@@ -233,6 +248,7 @@ void s_sockaddr() {
   if (a && p_socket_address_to_native(a, &ss, sizeof ss)) d = p_socket_address_new_from_native(&ss, sizeof ss);
   if (d) WRONG(p_socket_address_get_port(d) == 8080, "round trip changed the port");
   disarm();
+  if (pre) { pchar *t = p_socket_address_get_address(pre); DAMAGE(t && !strcmp(t, "172.16.254.1") && p_socket_address_get_port(pre) == 4242, "socket address changed by a failed call"); p_free(t); p_socket_address_free(pre); }
   p_free(s);
   p_socket_address_free(a); p_socket_address_free(b); p_socket_address_free(c); p_socket_address_free(d);
 }
@@ -278,8 +294,13 @@ void s_socket() {
 }
 
 void s_ipc() {
+  PShmBuffer *preb = p_shm_buffer_new("vp-nomem-prebuf", 16, nullptr);
+  if (preb) { char x[3] = {7, 8, 9}; p_shm_buffer_write(preb, x, 3, nullptr); }
+  PSemaphore *pres = p_semaphore_new("vp-nomem-presem", 2, P_SEM_ACCESS_CREATE, nullptr);
   arm();
   PError *e = nullptr;
+  if (preb) { PShmBuffer *again = p_shm_buffer_new("vp-nomem-prebuf", 16, &e); if (e) { p_error_free(e); e = nullptr; } if (again) p_shm_buffer_free(again); }
+  if (pres) { PSemaphore *again = p_semaphore_new("vp-nomem-presem", 9, P_SEM_ACCESS_OPEN, &e); if (e) { p_error_free(e); e = nullptr; } if (again) p_semaphore_free(again); }
   PSemaphore *s = p_semaphore_new("vp-nomem-sem", 1, P_SEM_ACCESS_CREATE, &e);
   if (e) { p_error_free(e); e = nullptr; }
   PShm *m = p_shm_new("vp-nomem-shm", 64, P_SHM_ACCESS_READWRITE, &e);
@@ -288,6 +309,9 @@ void s_ipc() {
   if (e) { p_error_free(e); e = nullptr; }
   if (b) { char x[4] = {1, 2, 3, 4}; p_shm_buffer_write(b, x, 4, nullptr); }
   disarm();
+  if (preb) { DAMAGE(p_shm_buffer_get_used_space(preb, nullptr) == 3, "existing buffer lost its content after a failed open of the same name"); char y[3] = {0}; DAMAGE(p_shm_buffer_read(preb, y, 3, nullptr) == 3 && y[0] == 7 && y[2] == 9, "existing buffer returns wrong bytes");
+              p_shm_buffer_take_ownership(preb); p_shm_buffer_free(preb); }
+  if (pres) { DAMAGE(p_semaphore_acquire(pres, nullptr) && p_semaphore_acquire(pres, nullptr), "existing semaphore lost its units after a failed open of the same name"); p_semaphore_take_ownership(pres); p_semaphore_free(pres); }
   if (s) { p_semaphore_take_ownership(s); p_semaphore_free(s); }
   if (m) { p_shm_take_ownership(m); p_shm_free(m); }
   if (b) { p_shm_buffer_take_ownership(b); p_shm_buffer_free(b); }
